@@ -172,6 +172,15 @@ func c18HashMaker(id ghash.Hash, elemSize int, elem func(r *rng) []byte, misSize
 
 var c18AliasCounter atomic.Uint64
 
+// c18Mark: "" when the check made inside a call holds, otherwise a marker that is different at every call (so that the
+// line answers same=0 / conc=0 whatever the other calls return)
+func c18Mark(ok bool, what string) string {
+	if ok {
+		return ""
+	}
+	return fmt.Sprintf("%s#%d", what, c18AliasCounter.Add(1))
+}
+
 // merkleDamgardHasher (hash/merkle-damgard.go) built on a caller-supplied initial state.
 // variant 0: Sum(nil) right after Reset hands out the slice that is both the state and the iv (and the caller's initialState)
 // variant 1: the slice returned by Sum is the live state: scribbling on it changes what the next Sum returns
